@@ -739,23 +739,35 @@ func (c *Ctx) exitCleanup(rule string) {
 		{"sink closer", func(in ssa.Instruction) bool { return c.isRangeOver(in, r.FChanh) }},
 		{"context cancel", isCancelOfLoopCtx},
 	}
-	// a defer performs an event if it is the event, or its target (with everything it calls) contains it
-	performs := func(d *ssa.Defer, ev ipred) bool {
+	// a defer performs an event if it is the event, or if every path through its target (with everything
+	// it calls, and what that defers in turn) passes the event: a cleanup step under a condition does not count
+	var performsD func(d *ssa.Defer, ev ipred, depth int) bool
+	performsD = func(d *ssa.Defer, ev ipred, depth int) bool {
 		if ev(d) {
 			return true
 		}
 		tgt := p.unbound(staticCallee(d))
-		if tgt == nil || !p.allFns[tgt] {
+		if tgt == nil || !p.allFns[tgt] || len(tgt.Blocks) == 0 || depth > 3 {
+			return false
+		}
+		at := func(x ssa.Instruction) bool {
+			if ev(x) {
+				return true
+			}
+			if d2, ok := x.(*ssa.Defer); ok {
+				return performsD(d2, ev, depth+1)
+			}
 			return false
 		}
 		hit := false
 		p.coneInstrs(tgt, func(x ssa.Instruction) {
-			if ev(x) {
+			if at(x) {
 				hit = true
 			}
 		})
-		return hit
+		return hit && reachFromEntry(tgt, isReturn, at) == nil
 	}
+	performs := func(d *ssa.Defer, ev ipred) bool { return performsD(d, ev, 0) }
 	var rets []ssa.Instruction
 	allInstrsRaw(loop, func(in ssa.Instruction) {
 		if isReturn(in) && len(in.Block().Preds) > 0 {
